@@ -51,6 +51,35 @@ theorem C03_iff (O : HashOracle) (s k code : Bytes) (c : Nat) (p : Option Param)
     have := hw.1.mpr ⟨c', h1, h2, decide_eq_true h3⟩
     rw [hf] at this; cases this
 
+/-- C03 without the side condition `c + s ≤ 2^64-1` (the counter is any 64-bit value): the accepted strings are exactly the
+codes of the counters `(c + j) mod 2^64` for offsets `-s ≤ j ≤ s` with `c + j ≥ 0` — below counter 0 the window is cut
+off, above 2^64-1 it continues at 0 (what `counter + uint64(i)` computes).  Outside the property's stated domain; stated
+so that the behaviour of the loop as written is characterised for every argument. -/
+theorem C03_iff_wrap (O : HashOracle) (s k code : Bytes) (c : Nat) (p : Option Param)
+    (hs : decodeSecret s = .ok k) (hsk : (resolveHOTP p).skew ≤ 10) (hc : c < 2 ^ 64)
+    (hd1 : 1 ≤ (resolveHOTP p).digits) (hd2 : (resolveHOTP p).digits ≤ 10) (ha : (resolveHOTP p).algo < 3) :
+    (validateHOTP O s code c p = .ok (true, none) ↔
+      ∃ j : Int, -((resolveHOTP p).skew : Int) ≤ j ∧ j ≤ (resolveHOTP p).skew ∧ 0 ≤ (c : Int) + j ∧
+        code = Spec.hotp O.hmac (resolveHOTP p).algo k ((((c : Int) + j) % (2 ^ 64 : Int)).toNat) (resolveHOTP p).digits) ∧
+    (validateHOTP O s code c p = .ok (true, none) ∨ validateHOTP O s code c p = .ok (false, some .invalidCode)) := by
+  rw [validateHOTP_unfold O s k code c p hs hsk]
+  have hchk : (fun c' => accepted (validateRFC4226 O code k c' (resolveHOTP p).digits (resolveHOTP p).algo)) =
+      (fun c' => Out.ok (decide (code = Spec.hotp O.hmac (resolveHOTP p).algo k c' (resolveHOTP p).digits))) := by
+    funext c'; exact accepted_validate_supported O code k c' _ _ hd1 hd2 ha
+  rw [hchk]
+  have hw := hotpWindow_wrap_iff (fun c' => decide (code = Spec.hotp O.hmac (resolveHOTP p).algo k c' (resolveHOTP p).digits)) c
+    (resolveHOTP p).skew hc (by omega)
+  rcases hw.2 with ht | hf
+  · rw [ht]
+    refine ⟨⟨fun _ => ?_, fun _ => rfl⟩, Or.inl rfl⟩
+    obtain ⟨j, h1, h2, h0, h3⟩ := hw.1.mp ht
+    exact ⟨j, h1, h2, h0, of_decide_eq_true h3⟩
+  · rw [hf]
+    refine ⟨⟨fun h => (by cases h), ?_⟩, Or.inr rfl⟩
+    rintro ⟨j, h1, h2, h0, h3⟩
+    have := hw.1.mpr ⟨j, h1, h2, h0, decide_eq_true h3⟩
+    rw [hf] at this; cases this
+
 /-- every generated code validates at its own counter -/
 theorem C03_self (O : HashOracle) (s k : Bytes) (c : Nat) (p : Option Param)
     (hs : decodeSecret s = .ok k) (hsk : (resolveHOTP p).skew ≤ 10) (hov : c + (resolveHOTP p).skew < 2 ^ 64)
@@ -92,9 +121,14 @@ theorem C03_bad_secret (O : HashOracle) (s code : Bytes) (c : Nat) (p : Option P
 example : (1 : Nat) + (resolveHOTP none).skew < 2 ^ 64 ∧ (resolveHOTP none).skew ≤ 10 := by decide
 example : (2 ^ 63 + 5 : Nat) + 10 < 2 ^ 64 := by decide
 
+-- non-vacuity of the wrap clause: at counter 2^64-1 the offset +1 reaches counter 0; at counter 0 the offset -1 is cut off
+example : ((((2 ^ 64 - 1 : Nat) : Int) + 1) % (2 ^ 64 : Int)).toNat = 0 := by decide
+example : ¬ (0 ≤ ((0 : Nat) : Int) + (-1)) := by decide
+
 end OtpVerif.Props.C03
 
 #print axioms OtpVerif.Props.C03.C03_iff
+#print axioms OtpVerif.Props.C03.C03_iff_wrap
 #print axioms OtpVerif.Props.C03.C03_self
 #print axioms OtpVerif.Props.C03.C03_len
 #print axioms OtpVerif.Props.C03.C03_skew_refused
